@@ -1414,6 +1414,20 @@ def _validate_patch_target(r: "Repo", repo_path: bytes, tree_path: bytes) -> byt
     return fs_path
 
 
+def _open_patch_target(fs_path: bytes) -> BinaryIO:
+    """Open a patch target for writing without following a symlink.
+
+    ``_validate_patch_target`` resolves symlinks only to make sure the target
+    stays below the work tree; a symlink left *at* the target (for instance
+    ``x -> .git/hooks/post-checkout``, checked out from an untrusted tree)
+    would still make ``open(..., "wb")`` write into the control directory.
+    Replace the link with a fresh regular file, like checkout does.
+    """
+    if os.path.islink(fs_path):
+        os.unlink(fs_path)
+    return open(fs_path, "wb")
+
+
 def _apply_rename_or_copy(
     r: "Repo",
     src_path: bytes,
@@ -1503,7 +1517,7 @@ def _apply_rename_or_copy(
     # Write to destination
     if not cached:
         os.makedirs(os.path.dirname(dst_fs_path), exist_ok=True)
-        with open(dst_fs_path, "wb") as f:
+        with _open_patch_target(dst_fs_path) as f:
             f.write(content)
         if patch.new_mode is not None:
             os.chmod(dst_fs_path, cleanup_mode(patch.new_mode))
@@ -1671,7 +1685,7 @@ def apply_patches(
                 # Write binary file
                 if not cached:
                     os.makedirs(os.path.dirname(fs_path), exist_ok=True)
-                    with open(fs_path, "wb") as f:
+                    with _open_patch_target(fs_path) as f:
                         f.write(binary_content)
                     if patch.new_mode is not None:
                         os.chmod(fs_path, cleanup_mode(patch.new_mode))
@@ -1837,7 +1851,7 @@ def apply_patches(
             if not cached:
                 # Write to working tree
                 os.makedirs(os.path.dirname(fs_path), exist_ok=True)
-                with open(fs_path, "wb") as f:
+                with _open_patch_target(fs_path) as f:
                     f.write(result_content)
 
                 # Update file mode if specified
